@@ -6,6 +6,7 @@ import (
 	"fmt"
 	"math/big"
 	"math/rand/v2"
+	"net"
 	"time"
 
 	"github.com/zmap/zcrypto/encoding/asn1"
@@ -33,6 +34,8 @@ func init() {
 			"when the SAN extension is overridden (ExtraExtensions or Attributes) the parsed SAN fields are compared with the overriding bytes' content, not with the template's SAN fields",
 			"RevocationList.AuthorityKeyId is not in the statement's list; what the parser puts there is counted, the created extension itself is checked through Go's parser",
 			"Go's crypto/x509 ParseCertificateRequest / ParseRevocationList are the differential parsers",
+			"inputs may alias each other (entries sharing extension storage, slices with spare capacity, reused templates); what was supplied is captured by deep copy before the call; " +
+				"whether a creation API changed its inputs is counted (…_changed_its_input), not asserted",
 			"times to the second in UTC; on the wire in Zulu form (RFC 5280 5.1.2.4-6, 'force revocation times to UTC' in CreateCRL), checked on the bytes",
 		},
 	}, runC05)
@@ -267,6 +270,35 @@ func runCSRCase(c *core.Ctx, r *rand.Rand, id string) {
 		wantExts = append([]idValue(nil), attrExts...)
 	}
 
+	// aliasing / reuse: slices with spare capacity (an append inside the library then writes into the caller's array), the same
+	// template used twice (the second request is the one that is checked). Supplied values are captured by copy before the call.
+	for i := range wantExts {
+		wantExts[i].Value = append([]byte{}, wantExts[i].Value...)
+	}
+	wantDNS, wantEmail := append([]string(nil), t.DNSNames...), append([]string(nil), t.EmailAddresses...)
+	var wantIPs []net.IP
+	for _, ip := range t.IPAddresses {
+		wantIPs = append(wantIPs, append(net.IP(nil), ip...))
+	}
+	extrasBefore := cloneExts(t.ExtraExtensions)
+	attrsBefore := fmt.Sprint(t.Attributes)
+	if r.IntN(4) == 0 {
+		if len(t.ExtraExtensions) > 0 {
+			t.ExtraExtensions = append(make([]pkix.Extension, 0, len(t.ExtraExtensions)+2), t.ExtraExtensions...)
+		}
+		for i := range t.Attributes {
+			for j := range t.Attributes[i].Value {
+				v := t.Attributes[i].Value[j]
+				t.Attributes[i].Value[j] = append(make([]pkix.AttributeTypeAndValue, 0, len(v)+3), v...)
+			}
+		}
+		desc["aliasing"] = "ExtraExtensions and attribute value slices have spare capacity"
+		if r.IntN(2) == 0 {
+			desc["template_reused"] = true
+			core.Guard(func() { _, _ = x509.CreateCertificateRequest(detReader(r), t, k.Signer()) })
+		}
+		c.Count("csr_with_spare_capacity_or_reused_template", 1)
+	}
 	input := map[string]any{"template": desc}
 	var der []byte
 	var err error
@@ -279,6 +311,11 @@ func runCSRCase(c *core.Ctx, r *rand.Rand, id string) {
 		return
 	}
 	input["der"] = core.FullHex(der)
+	if sameExts(t.ExtraExtensions, extrasBefore) && fmt.Sprint(t.Attributes) == attrsBefore && sameStrings(t.DNSNames, wantDNS) && sameStrings(t.EmailAddresses, wantEmail) && sameIPs(t.IPAddresses, wantIPs) {
+		c.Count("csr_create_left_its_input_unchanged", 1)
+	} else {
+		c.Count("csr_create_changed_its_input", 1) // known on the unchanged tree: requested extensions are appended to the caller's extensionRequest attribute
+	}
 	var got *x509.CertificateRequest
 	if pi := core.Guard(func() { got, err = x509.ParseCertificateRequest(der) }); pi != nil {
 		c.Violation("csr-roundtrip:parse:"+pi.Key, pi.Value+"\n"+pi.Stack, id, input)
@@ -331,14 +368,14 @@ func runCSRCase(c *core.Ctx, r *rand.Rand, id string) {
 			viol("SAN", "no SAN requested, parsed %q %q %v", got.DNSNames, got.EmailAddresses, got.IPAddresses)
 		}
 	case bytes.Equal(effSAN, generatedSAN):
-		if !sameStrings(got.DNSNames, t.DNSNames) {
-			viol("DNSNames", "want %q got %q", t.DNSNames, got.DNSNames)
+		if !sameStrings(got.DNSNames, wantDNS) {
+			viol("DNSNames", "want %q got %q", wantDNS, got.DNSNames)
 		}
-		if !sameStrings(got.EmailAddresses, t.EmailAddresses) {
-			viol("EmailAddresses", "want %q got %q", t.EmailAddresses, got.EmailAddresses)
+		if !sameStrings(got.EmailAddresses, wantEmail) {
+			viol("EmailAddresses", "want %q got %q", wantEmail, got.EmailAddresses)
 		}
-		if !sameIPs(got.IPAddresses, t.IPAddresses) {
-			viol("IPAddresses", "want %v got %v", t.IPAddresses, got.IPAddresses)
+		if !sameIPs(got.IPAddresses, wantIPs) {
+			viol("IPAddresses", "want %v got %v", wantIPs, got.IPAddresses)
 		}
 	default:
 		c.Count("csr_san_overridden", 1)
@@ -474,6 +511,29 @@ func runCRLCase(c *core.Ctx, r *rand.Rand, id string) {
 			ed = append(ed, map[string]any{"serial": revoked[i].SerialNumber.Text(16), "time": revoked[i].RevocationTime.Format(time.RFC3339Nano), "extensions": extListDesc(revoked[i].Extensions)})
 		}
 	}
+	// aliasing between inputs: entries sharing one Extensions backing array, the list itself with spare capacity
+	if n >= 2 && r.IntN(4) == 0 {
+		arr := make([]pkix.Extension, 4)
+		for j := range arr {
+			e := genUnknownExt(r, 8)
+			e.Id = append(asn1.ObjectIdentifier(nil), e.Id...)
+			e.Id[len(e.Id)-1] += 1000 * (j + 1)
+			arr[j] = e
+		}
+		for i := range revoked {
+			if i < 12 || r.IntN(2) == 0 {
+				off := r.IntN(3)
+				revoked[i].Extensions = arr[off : off+r.IntN(4-off+1)]
+				if len(revoked[i].Extensions) == 0 {
+					revoked[i].Extensions = nil
+				}
+			}
+		}
+		revoked = append(make([]pkix.RevokedCertificate, 0, n+3), revoked...)
+		desc["aliasing"] = "entries share windows of one extension array; list has spare capacity"
+		c.Count("crl_with_entries_sharing_extension_storage", 1)
+	}
+	wantRevoked := cloneRevokedV1(revoked) // what was supplied; the oracle below only looks at this copy
 	desc["entries"] = n
 	desc["first_entries"] = ed
 	now := genRevTime(r)
@@ -491,6 +551,11 @@ func runCRLCase(c *core.Ctx, r *rand.Rand, id string) {
 		return
 	}
 	input["der"] = core.FullHex(der)
+	if sameRevokedV1(revoked, wantRevoked) {
+		c.Count("crl_create_left_its_input_unchanged", 1)
+	} else {
+		c.Count("crl_create_changed_its_input", 1)
+	}
 	var got *pkix.CertificateList
 	if pi := core.Guard(func() { got, err = x509.ParseCRL(der) }); pi != nil {
 		c.Violation("crl-roundtrip:parse:"+pi.Key, pi.Value+"\n"+pi.Stack, id, input)
@@ -528,7 +593,7 @@ func runCRLCase(c *core.Ctx, r *rand.Rand, id string) {
 	if len(tbs.RevokedCertificates) != n {
 		viol("RevokedCertificates", "want %d entries got %d", n, len(tbs.RevokedCertificates))
 	} else {
-		for i, w := range revoked {
+		for i, w := range wantRevoked {
 			g := tbs.RevokedCertificates[i]
 			if g.SerialNumber == nil || g.SerialNumber.Cmp(w.SerialNumber) != 0 {
 				viol("RevokedCertificates.SerialNumber", "entry %d: want %x got %x", i, w.SerialNumber, g.SerialNumber)
@@ -550,7 +615,7 @@ func runCRLCase(c *core.Ctx, r *rand.Rand, id string) {
 	if !bytes.Contains(der, cat(derTime(now), derTime(expiry))) {
 		viol("encoding:update-times-not-utc-zulu", "thisUpdate/nextUpdate are not encoded as %x %x", derTime(now), derTime(expiry))
 	}
-	for i, w := range revoked {
+	for i, w := range wantRevoked {
 		if !bytes.Contains(der, cat(derInt(w.SerialNumber), derTime(w.RevocationTime))) {
 			viol("encoding:revocation-time-not-utc-zulu", "entry %d: serial %x is not followed by %x", i, w.SerialNumber, derTime(w.RevocationTime))
 			break
@@ -601,6 +666,26 @@ func runCRLCase(c *core.Ctx, r *rand.Rand, id string) {
 	if n > 0 || len(issuer.SubjectKeyId) > 0 {
 		c.Nontrivial(fmt.Sprint(desc))
 	}
+}
+
+func cloneRevokedV1(in []pkix.RevokedCertificate) []pkix.RevokedCertificate {
+	o := make([]pkix.RevokedCertificate, len(in))
+	for i, rc := range in {
+		o[i] = pkix.RevokedCertificate{SerialNumber: new(big.Int).Set(rc.SerialNumber), RevocationTime: rc.RevocationTime, Extensions: cloneExts(rc.Extensions)}
+	}
+	return o
+}
+
+func sameRevokedV1(a, b []pkix.RevokedCertificate) bool {
+	if len(a) != len(b) {
+		return false
+	}
+	for i := range a {
+		if a[i].SerialNumber.Cmp(b[i].SerialNumber) != 0 || !a[i].RevocationTime.Equal(b[i].RevocationTime) || !sameExts(a[i].Extensions, b[i].Extensions) {
+			return false
+		}
+	}
+	return true
 }
 
 func sameExts(a, b []pkix.Extension) bool {
@@ -725,7 +810,7 @@ func runRLCase(c *core.Ctx, r *rand.Rand, id string) {
 			var sl []pkix.Extension
 			switch mode {
 			case 0:
-				sl = sharedArr[:k : k+spare] // the same slice for every entry, cap - len = spare
+				sl = sharedArr[: k : k+spare] // the same slice for every entry, cap - len = spare
 			case 1:
 				sl = sharedArr[:r.IntN(k+3)] // prefixes of different length, capacity reaches the end of the array
 			default:
